@@ -35,6 +35,12 @@ theorem hoare_bind {α β} {P : Event → Prop} {m : M α} {f : α → M β} {Q 
     rw [hms] at h1
     exact h1
 
+theorem hoare_ite {α} {P : Event → Prop} {c : Prop} [Decidable c] {a b : M α} {Q : α → Prop}
+    (ha : Hoare P a Q) (hb : Hoare P b Q) : Hoare P (if c then a else b) Q := by
+  split
+  · exact ha
+  · exact hb
+
 theorem hoare_weaken {α} {P : Event → Prop} {m : M α} {Q R : α → Prop} (hm : Hoare P m Q) (h : ∀ a, Q a → R a) :
     Hoare P m R := by
   intro s hs
@@ -389,15 +395,22 @@ theorem hoare_buildImports (S : TSet) (fuel : Nat) (tu : Str) (t : Template) (ci
       exact ih _
     · exact ih _
 
-theorem hoare_fetchNsVars (S : TSet) (fuel : Nat) (tu : Str) (t : Template) (cid : Nat)
-    (ht : setLookup S tu = .found t) (xs : List Str) (acc : List (Str × Nat)) :
-    Hoare (EventSound S) (fetchNsVars S fuel tu t cid xs acc) (fun _ => True) := by
+theorem hoare_declareVars (S : TSet) (fuel : Nat) (tu : Str) (t : Template) (cid : Nat) (skip localDefs : List Str)
+    (imp : Option (List (Str × Value))) (ht : setLookup S tu = .found t) (xs : List Str) (acc : List (Str × Nat)) :
+    Hoare (EventSound S) (declareVars S fuel tu t cid skip localDefs imp xs acc) (fun _ => True) := by
   induction xs generalizing acc with
   | nil => exact hoare_pure _ trivial
   | cons x r ih =>
-    unfold fetchNsVars
-    refine hoare_bind (hoare_getTagNs S fuel tu t cid _ ht) (fun _ _ => ?_)
-    exact ih _
+    unfold declareVars
+    split
+    · exact ih _
+    · split
+      · refine hoare_bind (hoare_getTagNs S fuel tu t cid _ ht) (fun _ _ => ?_)
+        exact ih _
+      · split
+        · hstep
+          exact hoare_ite (hoare_throw _) (ih _)
+        · exact ih _
 
 def EnvOk (S : TSet) (env : Env) : Prop := setLookup S env.tu = .found env.t
 
@@ -510,11 +523,10 @@ theorem knotB (S : TSet) : ∀ fuel,
           · hprim
           · rename_i locals _
             have hjp : ∀ imp, Hoare (EventSound S) (do
-                let nsvars ← fetchNsVars S n r.tu t cid
-                  ((freeNames t t.body).filter fun x => x ∉ t.pageNames ∧ x ∉ t.defNames ∧ x ∈ t.nsNames) []
+                let nsvars ← declareVars S n r.tu t cid t.pageNames t.defNames imp (sortNames (freeNames t t.body)) []
                 execItems S n ⟨r.tu, t, cid, locals, imp, nsvars, true, t.defNames, none⟩ t.body) (fun _ => True) := by
               intro imp
-              refine hoare_bind (hoare_fetchNsVars S n r.tu t cid ht _ _) (fun _ _ => ?_)
+              refine hoare_bind (hoare_declareVars S n r.tu t cid _ _ _ ht _ _) (fun _ _ => ?_)
               exact ihItems _ _ ht (fun i hi => mem_allItems_body hi)
             dsimp only
             split
@@ -526,11 +538,10 @@ theorem knotB (S : TSet) : ∀ fuel,
           · rename_i nm d hd
             have hdm : d ∈ t.defs := List.mem_of_find?_eq_some hd
             have hjp : ∀ imp, Hoare (EventSound S) (do
-                let nsvars ← fetchNsVars S n r.tu t cid
-                  ((freeNames t d.body).filter fun x => x ∉ t.defNames ∧ x ∈ t.nsNames) []
+                let nsvars ← declareVars S n r.tu t cid [] t.defNames imp (sortNames (freeNames t d.body)) []
                 execItems S n ⟨r.tu, t, cid, [], imp, nsvars, false, t.defNames, none⟩ d.body) (fun _ => True) := by
               intro imp
-              refine hoare_bind (hoare_fetchNsVars S n r.tu t cid ht _ _) (fun _ _ => ?_)
+              refine hoare_bind (hoare_declareVars S n r.tu t cid _ _ _ ht _ _) (fun _ _ => ?_)
               exact ihItems _ _ ht (fun i hi => mem_allItems_def hdm hi)
             dsimp only
             split
@@ -546,7 +557,7 @@ theorem knotB (S : TSet) : ∀ fuel,
             · rename_i items hitems
               have him := alookup_some_mem hitems
               dsimp only
-              refine hoare_bind (hoare_fetchNsVars S n r.tu t cid ht _ _) (fun _ _ => ?_)
+              refine hoare_bind (hoare_declareVars S n r.tu t cid _ _ _ ht _ _) (fun _ _ => ?_)
               exact ihItems _ _ ht (fun i hi => mem_allItems_inline htm him hi)
       · hprim
     · intro cid kind uri calling args hpre
@@ -563,7 +574,7 @@ theorem knotB (S : TSet) : ∀ fuel,
       obtain ⟨callable, lcid⟩ := r2
       dsimp only
       split
-      · exact ihCode _ _ _
+      · exact hoare_ite (ihCode _ _ _) (ihCode _ _ _)
       · hprim
 
 /-- the log of a whole render is sound -/
